@@ -505,7 +505,7 @@ func (w *World) speculate() {
 	okN := 0
 	// one speculative step in four is a chain of creations (what a multi-message transaction that sets something
 	// up and then fails looks like): the entities exist only inside the discarded branch
-	var creations []string
+	var creations, template []string
 	if w.intn("spec.create", 4) == 3 {
 		for _, k := range []string{"addCreditType", "createClass", "createProject", "createBatch", "basketCreate", "put", "bridgeReceive", "sell", "defineResolver", "registerResolver", "anchor", "attest", "addBridgeChain", "addDenom", "addCreator"} {
 			if _, ok := Gens[k]; ok && w.Profile.Weights[k] > 0 {
@@ -515,13 +515,29 @@ func (w *World) speculate() {
 		if len(creations) > 0 {
 			n = 2 + w.intn("spec.create.n", 4)
 		}
+		// most chains are a coherent set-up (each message tends to name what the previous one created)
+		if tmpl := specTemplates[w.intn("spec.tmpl", len(specTemplates)+2)%len(specTemplates)]; w.intn("spec.tmpl?", 10) < 7 {
+			var ks []string
+			for _, k := range tmpl {
+				if _, ok := Gens[k]; ok && w.Profile.Weights[k] > 0 {
+					ks = append(ks, k)
+				}
+			}
+			if len(ks) >= 2 {
+				template, n = ks, len(ks)
+			}
+		}
 	}
 	branch := saved
+	w.inBranch, w.brNew = true, idSets{}
+	defer func() { w.inBranch, w.brNew = false, idSets{} }()
 	w.C.Sandbox(func() {
 		defer func() { branch = w.S }()
 		for i := 0; i < n; i++ {
 			var kind string
-			if len(creations) > 0 {
+			if template != nil {
+				kind = template[i]
+			} else if len(creations) > 0 {
 				kind = creations[w.intn("spec.create.kind", len(creations))]
 			} else if w.chance("spec.byweight", 50) {
 				kind = w.Profile.drawKind(w.T)
@@ -549,6 +565,7 @@ func (w *World) speculate() {
 			if res.OK {
 				okN++
 				w.S = w.R.Take(w.C)
+				w.brNew = newIDs(saved, w.S)
 				if w.chance("spec.again", 35) {
 					if dec2, err := wireRoundTrip(w.C, msg); err == nil {
 						res2 := w.C.Deliver(dec2)
@@ -571,20 +588,24 @@ func (w *World) speculate() {
 	}
 }
 
-// notePhantoms records the identifiers that exist in the discarded branch but not in the state it branched from.
-func (w *World) notePhantoms(saved, branch *snap.Snap) {
+var specTemplates = [][]string{
+	{"addCreditType", "createClass", "createProject", "createBatch"},
+	{"createClass", "createProject", "createBatch", "basketCreate", "put"},
+	{"basketCreate", "put", "take"},
+	{"createBatch", "put", "sell"},
+	{"createBatch", "basketCreate", "put", "take"},
+	{"createProject", "createBatch", "send", "retire"},
+	{"defineResolver", "registerResolver", "anchor", "attest"},
+	{"addBridgeChain", "bridgeReceive", "bridge"},
+}
+
+// idSets are the identifiers present in one snapshot and not in another, per entity kind.
+type idSets struct{ creditTypes, classes, projects, batches, baskets []string }
+
+func newIDs(saved, branch *snap.Snap) idSets {
+	var out idSets
 	if branch == nil || branch == saved {
-		return
-	}
-	add := func(pool *[]string, id string) {
-		for _, x := range *pool {
-			if x == id {
-				return
-			}
-		}
-		if len(*pool) < 8 {
-			*pool = append(*pool, id)
-		}
+		return out
 	}
 	have := map[string]bool{}
 	for _, x := range saved.CreditTypes {
@@ -604,27 +625,60 @@ func (w *World) notePhantoms(saved, branch *snap.Snap) {
 	}
 	for _, x := range branch.CreditTypes {
 		if !have["t/"+x.Abbreviation] {
-			add(&w.phCreditTypes, x.Abbreviation)
+			out.creditTypes = append(out.creditTypes, x.Abbreviation)
 		}
 	}
 	for _, x := range branch.Classes {
 		if !have["c/"+x.Id] {
-			add(&w.phClasses, x.Id)
+			out.classes = append(out.classes, x.Id)
 		}
 	}
 	for _, x := range branch.Projects {
 		if !have["p/"+x.Id] {
-			add(&w.phProjects, x.Id)
+			out.projects = append(out.projects, x.Id)
 		}
 	}
 	for _, x := range branch.Batches {
 		if !have["b/"+x.Denom] {
-			add(&w.phBatches, x.Denom)
+			out.batches = append(out.batches, x.Denom)
 		}
 	}
 	for _, x := range branch.Baskets {
 		if !have["k/"+x.BasketDenom] {
-			add(&w.phBaskets, x.BasketDenom)
+			out.baskets = append(out.baskets, x.BasketDenom)
 		}
 	}
+	return out
+}
+
+// notePhantoms records the identifiers that exist in the discarded branch but not in the state it branched from.
+func (w *World) notePhantoms(saved, branch *snap.Snap) {
+	add := func(pool *[]string, ids []string) {
+	next:
+		for _, id := range ids {
+			for _, x := range *pool {
+				if x == id {
+					continue next
+				}
+			}
+			if len(*pool) < 8 {
+				*pool = append(*pool, id)
+			}
+		}
+	}
+	n := newIDs(saved, branch)
+	add(&w.phCreditTypes, n.creditTypes)
+	add(&w.phClasses, n.classes)
+	add(&w.phProjects, n.projects)
+	add(&w.phBatches, n.batches)
+	add(&w.phBaskets, n.baskets)
+}
+
+// branchNew returns (three draws in five, inside a speculative branch that has created one) an entity that exists
+// only in the branch, so that the messages of a discarded transaction build on each other.
+func (w *World) branchNew(label string, ids []string) (string, bool) {
+	if !w.inBranch || len(ids) == 0 || w.intn(label+"?new", 5) < 2 {
+		return "", false
+	}
+	return ids[len(ids)-1-w.intn(label+"new", len(ids))], true
 }
